@@ -27,6 +27,7 @@ import (
 	"github.com/olric-data/olric/internal/protocol"
 	"github.com/olric-data/olric/internal/resp"
 	"github.com/olric-data/olric/internal/stats"
+	"github.com/olric-data/olric/internal/verifhook"
 	"github.com/olric-data/olric/pkg/storage"
 	"github.com/redis/go-redis/v9"
 )
@@ -179,6 +180,7 @@ func (dm *DMap) syncPutOnCluster(e *env, nt storage.Entry) error {
 
 	owners := dm.s.backup.PartitionOwnersByHKey(e.hkey)
 	for _, owner := range owners {
+		verifhook.Point(dm.s.rt.This().Name, "put.before-backup")
 		rc := dm.s.client.Get(owner.String())
 		cmd := protocol.NewPutEntry(dm.name, e.key, encodedEntry).Command(dm.s.ctx)
 		err := rc.Process(dm.s.ctx, cmd)
@@ -194,6 +196,7 @@ func (dm *DMap) syncPutOnCluster(e *env, nt storage.Entry) error {
 		}
 		successful++
 	}
+	verifhook.Point(dm.s.rt.This().Name, "put.before-local")
 	err := dm.putEntryOnFragment(e, nt)
 	if err != nil {
 		if dm.s.log.V(3).Ok() {
@@ -297,12 +300,14 @@ func (dm *DMap) putOnCluster(e *env) error {
 	}
 
 	e.fragment = f
+	verifhook.Point(dm.s.rt.This().Name, "put.before-lock")
 	f.Lock()
 	defer f.Unlock()
 
 	if err = dm.checkPutConditions(e); err != nil {
 		return err
 	}
+	verifhook.Point(dm.s.rt.This().Name, "put.cond-write")
 
 	if dm.config != nil {
 		if dm.config.ttlDuration.Seconds() != 0 && e.timeout.Seconds() == 0 {
